@@ -145,7 +145,9 @@ class Synth:
             elif var == 2:
                 # incl. a name the host file system cannot store (NUL byte); a name field that is not UTF-8 is outside
                 # what the spacepackets Metadata model (str names) calls well-formed and is not generated (DESIGN 12.2)
-                dst = ["dst/other.bin", "dst", "dst/sub/x.bin", "nodir/x.bin", "dst/nul\x00b.bin", ("x/sub", "dst")][t.choose(6, "md dst")]
+                # (the last three: legal names that are not in normal form)
+                dst = ["dst/other.bin", "dst", "dst/sub/x.bin", "nodir/x.bin", "dst/nul\x00b.bin", ("x/sub", "dst"),
+                       "dst/sub/../up.bin", "dst//dbl.bin", ("src/./a.bin", "dst/./dot.bin")][t.choose(9, "md dst")]
                 if isinstance(dst, tuple):
                     # destination given as a directory in which the source's base name is itself an existing directory
                     src, dst = dst
